@@ -52,7 +52,9 @@ func faultKindsFor(call string) []string {
 		return []string{"err"}
 	case cRead, cReadAtF:
 		return []string{"err", "partial_err", "early_eof"}
-	case cWrite, cWriteAt:
+	case cWrite:
+		return []string{"err", "partial_err", "short_nil", "err_full"}
+	case cWriteAt:
 		return []string{"err", "partial_err", "short_nil"}
 	case cReadAt:
 		return []string{"err", "partial_err"}
@@ -294,6 +296,9 @@ type SimFs struct {
 	// ShortWriteNext > 0: the next Write accepts only that many bytes and
 	// reports the short count with a nil error (device behaviour, one shot).
 	ShortWriteNext int
+	// EnforceParents: creating a file in a directory that does not exist fails with ENOENT,
+	// as on a real filesystem (MemMapFs would silently create the parents).
+	EnforceParents bool
 }
 
 func NewSimFs(inner afero.Fs, p *Plane, x *X) *SimFs {
@@ -362,7 +367,21 @@ func (s *SimFs) Open(name string) (afero.File, error) {
 	return s.open(cOpen, name, os.O_RDONLY, 0, func() (afero.File, error) { return s.inner.Open(name) })
 }
 func (s *SimFs) OpenFile(name string, flag int, perm os.FileMode) (afero.File, error) {
-	return s.open(cOpenFile, name, flag, perm, func() (afero.File, error) { return s.inner.OpenFile(name, flag, perm) })
+	return s.open(cOpenFile, name, flag, perm, func() (afero.File, error) {
+		if s.EnforceParents && flag&os.O_CREATE != 0 {
+			dir := name
+			for len(dir) > 1 && dir[len(dir)-1] != '/' {
+				dir = dir[:len(dir)-1]
+			}
+			if len(dir) > 1 {
+				dir = dir[:len(dir)-1]
+			}
+			if fi, err := s.inner.Stat(dir); err != nil || !fi.IsDir() {
+				return nil, &os.PathError{Op: "open", Path: name, Err: os.ErrNotExist}
+			}
+		}
+		return s.inner.OpenFile(name, flag, perm)
+	})
 }
 
 func (s *SimFs) other(call, path, detail string, do func() error) error {
@@ -532,6 +551,12 @@ func (f *simFile) Write(p []byte) (int, error) {
 			k = 0
 		}
 		switch flt.Kind {
+		case "err_full":
+			// every byte was taken and the device still reports a failure (e.g. the firmware rejected the update)
+			n, _ := f.File.Write(p)
+			e.N, e.Err = n, ErrInjected.Error()
+			f.fs.rec(e)
+			return n, ErrInjected
 		case "partial_err":
 			n, _ := f.File.Write(p[:k])
 			e.N, e.Err = n, ErrInjected.Error()
